@@ -222,15 +222,16 @@ class DomainParser:
             self.logger.warning("Received an action with no preconditions.")
             return
 
-        if preconditions_ast[0] != "and" and len(preconditions_ast[1:]) > 1:
-            raise SyntaxError(
-                f"Only accepting conjunctive preconditions! Action - {new_action.name} does not conform!"
-            )
-
+        # A body that is not a conjunction, e.g. (p ?x), (not (p ?x)) or (or ...), is a conjunction of one operand.
+        conjuncts = (
+            preconditions_ast[1:]
+            if preconditions_ast[0] == "and"
+            else [preconditions_ast]
+        )
         action_preconditions = CompoundPrecondition()
         self.preconditions_parser.parse(
             precondition_root=action_preconditions.root,
-            preconditions_ast=preconditions_ast[1:],
+            preconditions_ast=conjuncts,
             domain_functions=domain_functions,
             domain_types=domain_types,
             domain_predicates=domain_predicates,
